@@ -1,7 +1,8 @@
 /-
   C04 model driver. Line protocol (S-expressions, one per line; see Wire.lean for the shapes):
     (schema …)         → ok                      -- the schema description used by later lines
-    (check (doc …))    → (r (spec valid|invalid rule…) (model ok|fuel slot…))
+    (check (doc …))    → (r (spec valid|invalid rule…) (model ok|fuel slot…) (hyp ok|bad name…))
+       hyp: the input hypotheses of the assembly theorems (`hypFailures`, Hyp.lean) for this case
        slot := (s alt…)          -- one reported error; several alts = Go's map iteration picks one
        alt  := (p|x "message" "L:C"…)   -- p primary, x secondary (all errors *before* the filter
                                         -- of validator.go:82-91; the harness applies the filter)
@@ -12,6 +13,7 @@ import ApiFu.Common.Loop
 import ApiFu.C04.Wire
 import ApiFu.C04.Spec
 import ApiFu.C04.Model
+import ApiFu.C04.Hyp
 
 open ApiFu ApiFu.C04
 
@@ -35,7 +37,9 @@ def handle (st : St) (line : String) : St × String :=
            e.locs.map fun l => Sexp.atom (toString l.line ++ ":" ++ toString l.col))
        let model := Sexp.node "model" (Sexp.atom (if o.fuelOut then "fuel" else "ok") ::
          o.slots.map fun sl => Sexp.node "s" (sl.alts.map alt))
-       (st, toString (Sexp.node "r" [spec, model]))
+       let hf := hypFailures S D
+       let hyp := Sexp.node "hyp" (Sexp.atom (if hf.isEmpty then "ok" else "bad") :: hf.map Sexp.atom)
+       (st, toString (Sexp.node "r" [spec, model, hyp]))
      | none, _ => (st, "no-schema")
      | _, none => (st, "bad-doc"))
   | _ => (st, "bad-op")
